@@ -17,6 +17,8 @@
      - no output file is opened on any run that does not end well, for any token list at all (C19_no_output_on_error);
      - each of the 19 documented keys accepts exactly the documented values and decodes them to their documented
        meaning — unconditionally for ten keys, outside the narrowed triggers of the two remaining findings for nine;
+     - a value that is rejected is rejected by the decoder's ValueError, for all JSON values of 16 keys and outside
+       trigger_escape for the other three; stl_reader.program_start_tc is characterised completely (C19_start_tc_outcome);
      - the plan depends on nothing but the documented keys of the consulted sections: not on key order, not on other
        sections, not on undocumented keys (README is silent about those: they are ignored).
    Byte equality of the real process with the real library calls, and independence from the hash seed / earlier
@@ -24,7 +26,7 @@
 From Coq Require Import String Permutation.
 From TT Require Import Base.Prelude Base.CliTypes Gen.CliUnicode Model.Cli Spec.CliSpec Model.CliCases Gen.CliTables Gen.CliShape
   Proofs.C19.Tables Proofs.C19.Plan Proofs.C19.Types Proofs.C19.Accept Proofs.C19.AcceptFont Proofs.C19.AcceptColor
-  Proofs.C19.AcceptAll Proofs.C19.Args Proofs.C19.Pipeline Proofs.C19.SpecPlan Proofs.C19.Order Proofs.C19.Main.
+  Proofs.C19.AcceptAll Proofs.C19.Reject Proofs.C19.Args Proofs.C19.Pipeline Proofs.C19.SpecPlan Proofs.C19.Order Proofs.C19.Main.
 
 (* ================================================================== the whole property, as one statement.
    For every token list `convert <options>` of the command-line grammar (options in any order, `flag value` or
@@ -188,6 +190,43 @@ Proof. exact config_meaning. Qed.
 Theorem C19_config_rejects_partial : forall k v,
   in_table k v = true -> trigger k v = false -> documented k v = false -> exists e, decode k v = Raise e.
 Proof. exact config_rejects. Qed.
+(* how a value is rejected.  Full statement:  forall k v e, decode k v = Raise e -> e = EValue  (the decoder's own
+   "Invalid ... value. Expect: ..." error).  It holds for ALL JSON values — no hypothesis about the table or the acceptance
+   triggers — of 16 keys (since the repair, stl_reader.program_start_tc and font_stack included), and of the other three
+   (scc_reader.text_align, general.document_lang, general.log_level) for every value of the right JSON type
+   (Spec/CliSpec.v trigger_escape; refutation in Findings/C19.v). *)
+Theorem C19_config_rejection_is_value_error_partial : forall k v e,
+  trigger_escape k v = false -> decode k v = Raise e -> e = EValue.
+Proof. exact decode_raises_value_error. Qed.
+Theorem C19_config_rejects_value_error_partial : forall k v,
+  in_table k v = true -> trigger k v = false -> trigger_escape k v = false -> documented k v = false -> decode k v = Raise EValue.
+Proof. exact config_rejects_value_error. Qed.
+(* whole sections, whatever they hold: every module's parse fails by ValueError or not at all — except scc_reader's, which
+   can also fail by AttributeError, and then text_align is given and is not a string *)
+Theorem C19_section_rejection_is_value_error : forall d e,
+  (parse_general d = Raise e -> e = EValue) /\ (parse_imsc d = Raise e -> e = EValue) /\ (parse_stl d = Raise e -> e = EValue) /\
+  (parse_srt d = Raise e -> e = EValue) /\ (parse_vtt d = Raise e -> e = EValue) /\ (parse_lcd d = Raise e -> e = EValue) /\
+  (parse_scc d = Raise e -> e = EValue \/ (e = EAttribute /\ exists v, obj_get (T "text_align") d = Some v /\ forall s, v <> JStr s)).
+Proof.
+  exact (fun d e => match sections_raise_value_error d with
+                    | conj a (conj b (conj c (conj f (conj g h)))) => conj (a e) (conj (b e) (conj (c e) (conj (f e) (conj (g e) (conj (h e) (scc_section_raises d e))))))
+                    end).
+Qed.
+(* stl_reader.program_start_tc, for ALL JSON values, no trigger: null = not specified; "TCP" in any letter case = TCP; a
+   complete time code — four two-digit fields and three separators, any characters but a line feed — is kept as written;
+   every other string and every value that is not a string is a ValueError.  So the accepted strings are exactly the
+   documented ones plus the recorded leniency (letter case of TCP, separators), nothing else. *)
+Theorem C19_start_tc_outcome : forall v,
+  decode KStartTc v =
+  match v with
+  | JNull => Ok CNone
+  | JStr s => if ci_eq s (T "TCP") then Ok (CText (T "TCP")) else if tc_any_sep s then Ok (CText s) else Raise EValue
+  | _ => Raise EValue
+  end.
+Proof. exact start_tc_outcome. Qed.
+Theorem C19_start_tc_accepts : forall s,
+  accepts KStartTc (JStr s) = (documented KStartTc (JStr s) || trigger_lenient KStartTc (JStr s)) && (ci_eq s (T "TCP") || tc_any_sep s).
+Proof. exact start_tc_documented_or_lenient. Qed.
 (* colours: for every string free of upper-case letters, ASCII white space and non-ASCII characters and within the digit
    limit, parse_color accepts exactly the TTML2 colours and returns their RGBA value *)
 Theorem C19_config_colors : forall s,
@@ -265,8 +304,9 @@ Theorem C19_tables_are_the_codes :
         (List.filter (fun od => negb (dest_code (snd od) =? 0)) option_strings) spec_flags = true).
 Proof. exact (conj file_types_agree (conj filter_registry_agrees (conj config_fields_agree (conj convert_shape_agrees argparse_agrees)))). Qed.
 Theorem C19_decoders_on_probe_set :
-  forallb probe_ok gen_probes = true /\ forallb (fun p => negb (probe_class p =? 9) && negb (probe_class p =? 8)) gen_probes = true.
-Proof. exact (conj probes_agree probes_spec_ok). Qed.
+  forallb probe_ok gen_probes = true /\ forallb (fun p => negb (probe_class p =? 9) && negb (probe_class p =? 8)) gen_probes = true /\
+  forallb (fun p => negb (probe_escape p =? 7)) gen_probes = true.
+Proof. exact (conj probes_agree (conj probes_spec_ok probes_escape_ok)). Qed.
 Theorem C19_defaults_are_the_codes :
   default_scc = gen_default_scc /\ default_stl = gen_default_stl /\ default_imsc = gen_default_imsc /\
   default_srt = gen_default_srt /\ default_vtt = gen_default_vtt /\ default_lcd = gen_default_lcd /\
@@ -326,6 +366,16 @@ Example C19_example_table :
   accepts KColor (JStr (T "#FF0000zz")) = false /\ accepts KColor (JStr (T "rgb(300,0,0)")) = false /\
   accepts KFontStack (JStr (T "a")) = true /\ accepts KMaxRowCount (JBool true) = false.
 Proof. vm_compute. repeat split; reflexivity. Qed.
+(* the hypotheses of the rejection theorems are satisfiable, and their conclusions are about real rejections *)
+Example C19_example_rejections :
+  trigger_escape KStartTc (JInt 5) = false /\ decode KStartTc (JInt 5) = Raise EValue /\
+  trigger_escape KFontStack (JArr [JStr (T "Arial")]) = false /\ decode KFontStack (JArr [JStr (T "Arial")]) = Raise EValue /\
+  trigger_escape KSccTextAlign (JStr (T "centre")) = false /\ decode KSccTextAlign (JStr (T "centre")) = Raise EValue /\
+  in_table KColor (JBool true) = true /\ trigger KColor (JBool true) = false /\ documented KColor (JBool true) = false /\
+  parse_stl [(T "program_start_tc", JBool true)] = Raise EValue /\ parse_scc [(T "text_align", JBool true)] = Raise EAttribute /\
+  decode KStartTc (JStr (T "tCp")) = Ok (CText (T "TCP")) /\ decode KStartTc (JStr (T "10:00:00;00")) = Ok (CText (T "10:00:00;00")) /\
+  decode KStartTc (JStr (T "10:00:00")) = Raise EValue.
+Proof. vm_compute. repeat split; reflexivity. Qed.
 Example C19_example_order :
   let d := [(T "fps", JStr (T "30000/1001")); (T "time_format", JStr (T "frames"))] in
   let d' := [(T "time_format", JStr (T "frames")); (T "fps", JStr (T "30000/1001"))] in
@@ -346,6 +396,8 @@ Print Assumptions C19_precedence.  Print Assumptions C19_inline_alone.  Print As
 Print Assumptions C19_filters_order.  Print Assumptions C19_filters_configured.  Print Assumptions C19_lang_override.
 Print Assumptions C19_config_acceptance_exact.  Print Assumptions C19_config_acceptance_fps.  Print Assumptions C19_config_acceptance_partial.
 Print Assumptions C19_config_meaning_partial.  Print Assumptions C19_config_rejects_partial.  Print Assumptions C19_config_colors.
+Print Assumptions C19_config_rejection_is_value_error_partial.  Print Assumptions C19_config_rejects_value_error_partial.
+Print Assumptions C19_section_rejection_is_value_error.  Print Assumptions C19_start_tc_outcome.  Print Assumptions C19_start_tc_accepts.
 Print Assumptions C19_font_stack_documented_accepted.  Print Assumptions C19_font_single_name.
 Print Assumptions C19_section_acceptance.  Print Assumptions C19_section_acceptance_general.
 Print Assumptions C19_plan_depends_on_consulted_keys_only.  Print Assumptions C19_convert_is_convert_with.
